@@ -31,7 +31,8 @@ PROP = "C34"
 LEVEL = "exploration"
 ENGINE = "enum"
 RULE = ("every type of the depth<=2 grammar (see bounds) x every leaf slot x every value of the slot's boundary set "
-        "(0,1,max,msb,0x55..,min/-1 for signed, overflow and -1 for bit fields) x every write spelling; a type case is "
+        "(0,1,max,msb,0x55..,min/-1 for signed, overflow and -1 for bit fields; depth-2 types: 0, all-ones, 0x55..) "
+        "x every write spelling; a type case is "
         "non-trivial when it has >=2 slots (a write has a neighbour or an alias it could damage) - string cases when "
         "the string is not empty")
 LEVEL_TEXT = ("Bounded-exhaustive: every type definition of an explicit depth<=2 grammar over all Num formats, Ptr, "
@@ -168,17 +169,35 @@ def skel(spec):
                        ",".join(("anon " if a else "") + skel(fs) for a, fs in spec[1]))
 
 
-def values_for(kind, fmt=None, width=None):
+def depth(spec):
+    """Nesting of arrays/structs/unions above the leaves (a BitField is a leaf)."""
+    k = spec[0]
+    if k == "arr":
+        return 1 + depth(spec[1])
+    if k in ("struct", "union"):
+        return 1 + max(depth(fs) for _, fs in spec[1])
+    return 0
+
+
+def values_for(kind, fmt=None, width=None, full=True):
+    """Boundary values of a slot. @full: the complete set (types of depth <= 1, where the leaf encodings are
+    decided); deeper types, which add nothing but layout, use {0, all-ones, 0x55..}."""
     if kind == "bits":
         m = (1 << width) - 1
         vs = [0, 1, m, 1 << (width - 1), 0x5555555555555555 & m, 1 << width, (1 << width) | 1, -1]
+        if not full:
+            vs = [0, m, 0x5555555555555555 & m]
     else:
         w = 8 * NSIZE[fmt]
         if fmt in SIGNED:
             vs = [0, 1, (1 << (w - 1)) - 1, -(1 << (w - 1)), -1, 0x5555555555555555 & ((1 << (w - 1)) - 1)]
+            if not full:
+                vs = [0, -1, 0x5555555555555555 & ((1 << (w - 1)) - 1)]
         else:
             m = (1 << w) - 1
             vs = [0, 1, m, 1 << (w - 1), 0x5555555555555555 & m]
+            if not full:
+                vs = [0, m, 0x5555555555555555 & m]
     out = []
     for v in vs:
         if v not in out:
@@ -272,6 +291,7 @@ class TypeCase(object):
         self.T = env["T"]
         self.T.DYN_MEM_STRUCT_CACHE.clear()
         self.spec = spec
+        self.full = depth(spec) <= 1
         self.case = {"k": "type", "spec": spec}
         self.vs = []
         self.seen = set()
@@ -478,9 +498,9 @@ class TypeCase(object):
             self.check_read(s, "read", "initial read of 0xAA-filled memory")
         for s in self.slots:
             if s.kind == "bits":
-                values = values_for("bits", width=s.width)
+                values = values_for("bits", width=s.width, full=self.full)
             else:
-                values = values_for("num", fmt=s.fmt)
+                values = values_for("num", fmt=s.fmt, full=self.full)
             spellings = (0, 1) if (s.kind == "ptr" and s.key is not None) else (0,)
             alias = self.overlapping(s)
             for sp in spellings:
@@ -848,6 +868,7 @@ def bounds_for(quick):
         "d2_struct3": not quick,
         "array_lens": ARRAY_LENS,
         "str_len": 2 if quick else 3,
+        "values": "depth<=1: 0,1,max,msb/min,-1,0x55.. (+ overflow and -1 for bits); depth 2: 0, all-ones, 0x55..",
         "page": [PAGE, PAGE_SIZE, BASE - PAGE],
     }
 
@@ -899,7 +920,7 @@ def run(ctx):
     import sys
     assert sys.byteorder == "little"
     quick = ctx.quick
-    nsh = 64
+    nsh = 32 if quick else 64
     res = ctx.pmap(_shard, [(quick, i, nsh) for i in range(nsh)])
     sres = ctx.pmap(_str_shard, [(quick, i, 16) for i in range(16)])
     n = sum(r[0] for r in res)
